@@ -462,7 +462,8 @@ def layout_task(spine, compact, more_out, with_params, symtype, derived):
             okk = [(e, key) for e, key, _ in X] == [(e, key) for e, key, _ in XN]
             c.oblige("post", "each result is the successor of the state argument in the same position", T.const(okk), assume_after=False)
 
-    return Task(f"{CSQ}:Engine.to_function<{label}>", run, props=P_D + ("C07",), func=f"{CSQ}:Engine.to_function (+ helpers, Network.elements/states/...)", config=label)
+    return Task(f"{CSQ}:Engine.to_function<{label}>", run, props=P_D + ("C07",), func=f"{CSQ}:Engine.to_function (+ helpers, Network.elements/states/...)", config=label,
+                bounded="five fixed element lists (spines) of 3 to 8 elements; segment counts, symbols and values symbolic")
 
 
 def all_tasks():
